@@ -498,6 +498,19 @@ hwloc_backend_distances_add_commit(hwloc_topology_t topology,
     goto err;
   }
 
+  /* link the structure before grouping: if grouping replaces one of its Group objects in place,
+   * the cached object pointers of every structure in the list, this one included, must be looked up again.
+   */
+  if (topology->last_dist)
+    topology->last_dist->next = dist;
+  else
+    topology->first_dist = dist;
+  dist->prev = topology->last_dist;
+  dist->next = NULL;
+  topology->last_dist = dist;
+
+  dist->iflags &= ~HWLOC_INTERNAL_DIST_FLAG_NOT_COMMITTED;
+
   if (topology->grouping && (flags & HWLOC_DISTANCES_ADD_FLAG_GROUP) && !dist->different_types) {
     float full_accuracy = 0.f;
     float *accuracies;
@@ -520,15 +533,6 @@ hwloc_backend_distances_add_commit(hwloc_topology_t topology,
 			       dist->kind, nbaccuracies, accuracies, 1 /* check the first matrix */);
   }
 
-  if (topology->last_dist)
-    topology->last_dist->next = dist;
-  else
-    topology->first_dist = dist;
-  dist->prev = topology->last_dist;
-  dist->next = NULL;
-  topology->last_dist = dist;
-
-  dist->iflags &= ~HWLOC_INTERNAL_DIST_FLAG_NOT_COMMITTED;
   return 0;
 
  err:
